@@ -28,6 +28,7 @@ func init() {
 			"C07.R5 must-pass-through: drain loop before bufio.Flush before return; flush before acknowledge; request then exactly one acknowledge receive in Flush/Close",
 			"C07.R6 close order in every function that closes both an asynchronous writer and an *os.File",
 			"C07.R7 provenance of the enqueued slice: never rooted in a field of the writer",
+			"C07.R8 value flow of the enqueue's error to a return of the per-record writer (and of a wrapper that is handed the bytes): a rejected record is reported",
 		},
 		Assumptions: []string{"Go channels are FIFO; bufio.Writer.Write/Flush write through to the file in call order"},
 		Run:         runC07,
@@ -580,7 +581,24 @@ func (c *c07ctx) ruleR5() {
 			okb = false
 		}
 	})
-	r.Check(okb, "C07.R5", FuncName(drain)+" drains until empty", p.Pos(drain.Pos()), "bufio.Flush happens only after a non-blocking receive found the queue empty", "bufio.Flush must be reached only through the default arm of a non-blocking receive on the queue (otherwise queued data can be left behind when the flush is acknowledged)")
+	boundedDrain := false
+	if !okb {
+		// a drain loop bounded by the capacity of the queue: it moves everything that was queued
+		// when it started, which is all a single producer can have had accepted; whether that is
+		// enough is a counting argument this rule does not make
+		Instrs(drain, func(in ssa.Instruction) {
+			if call, ok := in.(*ssa.Call); ok {
+				if b, isB := call.Call.Value.(*ssa.Builtin); isB && b.Name() == "cap" && len(call.Call.Args) == 1 && c.isQueueChan(call.Call.Args[0]) {
+					boundedDrain = true
+				}
+			}
+		})
+	}
+	if boundedDrain {
+		r.Unk("C07.R5", FuncName(drain)+" drains until empty", p.Pos(drain.Pos()), "the drain loop is bounded by the queue's capacity and bufio.Flush also follows the loop: whether one queue's worth covers everything accepted before the flush was asked for is not decided")
+	} else {
+		r.Check(okb, "C07.R5", FuncName(drain)+" drains until empty", p.Pos(drain.Pos()), "bufio.Flush happens only after a non-blocking receive found the queue empty", "bufio.Flush must be reached only through the default arm of a non-blocking receive on the queue (otherwise queued data can be left behind when the flush is acknowledged)")
+	}
 	// (c) in the loop: every acknowledge send is preceded by a drain call since the request was received
 	loop := c.loopFn
 	r.Fn(FuncName(loop))
@@ -812,8 +830,115 @@ func maxCount(s CountSet) int {
 	return 0
 }
 
+// promoteWrappers: a function outside the asynchronous writer's package that is handed the bytes
+// as a parameter and passes them to the fallible enqueue exactly once is itself an enqueue for the
+// rules about writers (its callers assemble the record); it must hand the enqueue's error back.
+func (c *c07ctx) promoteWrappers() {
+	p, r := c.p, c.r
+	for _, fn := range p.LibFuncs() {
+		if fnPkg(fn) == fnPkg(c.loopFn) || fn.Parent() != nil || c.enqueues[fn] {
+			continue
+		}
+		var calls []*ssa.Call
+		Instrs(fn, func(in ssa.Instruction) {
+			if call, ok := in.(*ssa.Call); ok && call.Call.StaticCallee() != nil && c.enqueues[call.Call.StaticCallee()] {
+				calls = append(calls, call)
+			}
+		})
+		if len(calls) != 1 || InLoop(calls[0]) {
+			continue
+		}
+		call := calls[0]
+		var bytesArg ssa.Value
+		for _, a := range call.Call.Args {
+			if sl, ok := a.Type().Underlying().(*types.Slice); ok && types.Identical(sl.Elem(), types.Typ[types.Byte]) {
+				bytesArg = a
+			}
+		}
+		prm, isPrm := bytesArg.(*ssa.Parameter)
+		if !isPrm || prm.Parent() != fn {
+			continue
+		}
+		c.enqueues[fn] = true
+		r.Fn(FuncName(fn))
+		c.ruleR8(fn, call)
+	}
+}
+
+// ruleR8: the error of the fallible enqueue reaches the error result of the function that made
+// the call (returned as it is, merged with nil, or wrapped): a rejected record is reported.
+func (c *c07ctx) ruleR8(fn *ssa.Function, call *ssa.Call) {
+	p, r := c.p, c.r
+	var errVal ssa.Value
+	if call.Referrers() != nil {
+		for _, ref := range *call.Referrers() {
+			if ex, ok := ref.(*ssa.Extract); ok && isErrorType(ex.Type()) {
+				errVal = ex
+			}
+		}
+	}
+	if isErrorType(call.Type()) {
+		errVal = call
+	}
+	key := "the enqueue's error is handed back by " + FuncName(fn)
+	if errVal == nil {
+		r.Bad("C07.R8", key, p.InstrPos(call), "the error result of the enqueue is not even taken: a record the full queue rejected is reported as written")
+		return
+	}
+	flows := false
+	seen := map[ssa.Value]bool{}
+	var walk func(v ssa.Value, d int)
+	walk = func(v ssa.Value, d int) {
+		if seen[v] || d > 6 || flows || v.Referrers() == nil {
+			return
+		}
+		seen[v] = true
+		for _, ref := range *v.Referrers() {
+			switch x := ref.(type) {
+			case *ssa.Return:
+				flows = true
+			case *ssa.Phi:
+				walk(x, d+1)
+			case *ssa.MakeInterface:
+				walk(x, d+1)
+			case *ssa.Store:
+				// the named result kept in memory (defer): loads of it
+				if al, ok := x.Addr.(*ssa.Alloc); ok && x.Val == v {
+					for _, r2 := range *al.Referrers() {
+						if ld, ok := r2.(*ssa.UnOp); ok {
+							walk(ld, d+1)
+						}
+					}
+				}
+				// wrapped: stored into the argument list of fmt.Errorf
+				if ia, ok := x.Addr.(*ssa.IndexAddr); ok {
+					if al, ok := ia.X.(*ssa.Alloc); ok {
+						for _, r2 := range *al.Referrers() {
+							if sl, ok := r2.(*ssa.Slice); ok {
+								for _, r3 := range *sl.Referrers() {
+									if c2, ok := r3.(*ssa.Call); ok {
+										walk(c2, d+1)
+									}
+								}
+							}
+						}
+					}
+				}
+			case *ssa.Call:
+				if x.Call.StaticCallee() != nil && isErrorType(x.Type()) {
+					walk(x, d+1)
+				}
+			}
+		}
+	}
+	walk(errVal, 0)
+	r.Check(flows, "C07.R8", key, p.InstrPos(call), "the error value reaches a return",
+		"the error of the enqueue never reaches a return of "+FuncName(fn)+" (it is only tested, or assigned to a variable that is not the one returned): when the queue is full the record is dropped and the caller is told it was written")
+}
+
 func (c *c07ctx) ruleR1() {
 	p, r := c.p, c.r
+	c.promoteWrappers()
 	memo := map[*ssa.Function]CountSet{}
 	// writer methods outside asyncbufio that reach the enqueue
 	type wm struct {
@@ -883,6 +1008,11 @@ func (c *c07ctx) ruleR1() {
 				"at most one fallible enqueue per record on every path",
 				fmt.Sprintf("per-record writer performs up to %s fallible enqueues on one path: when the queue fills between two of them the file receives a partial record", map[int]string{2: ">=2"}[w.max]))
 			c.ruleR7(w.fn)
+			Instrs(w.fn, func(in ssa.Instruction) {
+				if call, ok := in.(*ssa.Call); ok && call.Call.StaticCallee() != nil && c.enqueues[call.Call.StaticCallee()] {
+					c.ruleR8(w.fn, call)
+				}
+			})
 			continue
 		}
 		if w.max <= 1 {
@@ -979,6 +1109,11 @@ func (c *c07ctx) ruleR7(fn *ssa.Function) {
 			return
 		}
 		arg := cc.Args[len(cc.Args)-1]
+		for _, a := range cc.Args {
+			if sl, ok := a.Type().Underlying().(*types.Slice); ok && types.Identical(sl.Elem(), types.Typ[types.Byte]) {
+				arg = a
+			}
+		}
 		bad := ""
 		seen := map[ssa.Value]bool{}
 		var walk func(v ssa.Value)
